@@ -12,7 +12,7 @@ from vf.checks import c12
 
 PID = 'C20'
 POLICIES = [('simple', ','), ('quoted', ','), ('quoted_rfc', ','), ('whitespace', ' '), ('monocolumn', '')]
-SAMPLES = ['é,€\n', '\U0001F600"x"\r\n', '﻿a,b\r\nc', '"é\r\n€",z\n', 'é\r', '\r\n\r\né', 'ж#\n#ж\n', '"\U0001F600""\r"\n', '﻿#é\n€', 'a é\r\nж  b']
+SAMPLES = ['é,€\n', '\U0001F600"x"\r\n', '﻿a,b\r\nc', '"é\r\n€",z\n', 'é\r', '\r\n\r\né', 'ж#\n#ж\n', '"\U0001F600""\r"\n', '﻿#é\n€', 'a é\r\nж  b', 'x\ufffd,\ufffd\n']
 
 
 def js_result_to_ref_shape(out, has_header):
